@@ -273,3 +273,21 @@ def operator_apply(fk, N, d, nc, na, vec):
             ops = [('c', p) for p in ps] + [('a', q) for q in reversed(qs)]
             out = fk.add(out, fk.apply_string(ops, vec), c * pref % P)
     return out
+
+
+def density_series(pt, N):
+    """D[n][p, q] = [lambda^n] <Psi|a+_p a_q|Psi> / <Psi|Psi>"""
+    n = pt.order
+    fk = pt.fk
+    out = [np.zeros((N, N), dtype=np.int64) for _ in range(n + 1)]
+    sinv = s_inv(pt.overlap_series(), n)
+    for p in range(N):
+        for q in range(N):
+            Dpsi = [fk.apply_string([('c', p), ('a', q)], pt.psi[k])
+                    for k in range(n + 1)]
+            num = [sum(fk.dot(pt.psi[k], Dpsi[m_ - k])
+                       for k in range(m_ + 1)) % P for m_ in range(n + 1)]
+            ser = s_mul(num, sinv, n)
+            for k in range(n + 1):
+                out[k][p, q] = ser[k]
+    return out
